@@ -82,6 +82,27 @@ def s_size_r1(v):
 def s_size_post_r10(v):
     return v
 
+def make_limited(limit):
+    def set_limit(v):
+        nonlocal limit
+        limit = v
+    @icontract.require(lambda x: x < limit)
+    def limited(x):
+        return x
+    return limited, set_limit
+
+class Ledger:
+    def __init__(self, entries):
+        self.entries = entries
+    def __repr__(self):
+        return "Ledger"
+
+@icontract.require(lambda ledger: (
+    ledger.entries
+    .count(0) > 5))
+def s_multiline_chain(ledger):
+    return 1
+
 @icontract.invariant(lambda self: self.v is None, a_repr=R10)
 class SInv:
     def __init__(self, v):
@@ -228,9 +249,31 @@ def main():
     want = "  g = " + default.repr(groups[1])
     if not has_line(msg, want):
         local.append({"symptom": "all_witness_not_rendered_through_a_repr", "scenario": "s_all_sets", "detail": msg[:400]})
+    # history independence: a closure variable re-bound between two violations of the same contract
+    f1, set1 = ns["make_limited"](10)
+    m_first = violation_message(f1, 20)
+    set1(1)
+    m_after = violation_message(f1, 20)
+    f2, _ = ns["make_limited"](1)
+    m_fresh = violation_message(f2, 20)
+    out["closure_first"], out["closure_after_rebinding"] = m_first, m_after
+    if m_after != m_fresh:
+        local.append({"symptom": "message_depends_on_earlier_violation", "scenario": "closure_rebinding",
+                      "detail": "after an earlier violation with limit=10 the message for limit=1 is {!r}; in a fresh history it is {!r}".format(m_after, m_fresh)})
+    # expression texts spanning lines: sorted by expression text, not by rendered line
+    msg = violation_message(ns["s_multiline_chain"], ns["Ledger"]([0, 7]))
+    out["multiline_chain"] = msg
+    i_short = msg.find("ledger.entries was ")
+    i_long = msg.find("ledger.entries\n")
+    i_long = msg.find("ledger.entries\n", i_long + 1) if msg.count("ledger.entries\n") > 1 else i_long
+    # the condition text itself (first occurrence) also contains 'ledger.entries\n'; the value line is the LAST occurrence
+    i_long = msg.rfind("ledger.entries\n")
+    if i_short < 0 or i_long < 0 or not (i_short < i_long):
+        local.append({"symptom": "value_lines_not_sorted", "scenario": "multiline_chain",
+                      "detail": "'ledger.entries' must precede the longer text 'ledger.entries\\n    .count(0)': {!r}".format(msg)})
     # sorted lines: for every collected message the value lines are sorted by expression text
     for label, msg in list(out.items()):
-        if not isinstance(msg, str) or msg.startswith(("OTHER", "NO-")):
+        if not isinstance(msg, str) or msg.startswith(("OTHER", "NO-")) or label == "multiline_chain":
             continue
         body = msg.split("\n")[1:]
         texts = []
